@@ -254,8 +254,23 @@ def draw_modal(ch, rng, nmax=6):
         nel = 1
     n = nrb + nel + nrf
     rfmodes = None
+    el_idx = np.arange(nrb, nrb + nel)
+    rf_idx = np.arange(nrb + nel, n)
+    if nrf and nel:
+        # residual-flexibility modes need not be last: directly after the rigid-body modes,
+        # or interspersed with the elastic modes (the elastic partition is then an index
+        # array instead of a slice inside apply_uf)
+        arr = ch.weighted([4, 1, 2], "rf_arrangement")
+        if arr == 1:
+            rf_idx = np.arange(nrb, nrb + nrf)
+            el_idx = np.arange(nrb + nrf, n)
+        elif arr == 2:
+            pos = np.arange(nrb, n)
+            pick = np.sort(rng.permutation(nel + nrf)[:nrf])
+            rf_idx = pos[pick]
+            el_idx = np.setdiff1d(pos, rf_idx)
     if nrf:
-        rfmodes = np.arange(nrb + nel, n)
+        rfmodes = rf_idx.copy()
         if ch.flip(1, 3, "rf_as_mask"):
             mask = np.zeros(n, bool)
             mask[rfmodes] = True
@@ -263,7 +278,7 @@ def draw_modal(ch, rng, nmax=6):
     full_k = ch.flip(1, 3, "full_k")
     full_b = ch.flip(1, 3, "full_b")
     mkind = ch.weighted([2, 2, 1], "mkind")  # None, vector, full
-    desc = dict(n=n, nrb=nrb, nel=nel, nrf=nrf, full_k=full_k, full_b=full_b, mkind=mkind, rf_mask=rfmodes is not None and rfmodes.dtype == bool)
+    desc = dict(n=n, nrb=nrb, nel=nel, nrf=nrf, full_k=full_k, full_b=full_b, mkind=mkind, rf_mask=rfmodes is not None and rfmodes.dtype == bool, rf_at=[int(i) for i in rf_idx] if nrf else [])
 
     def values(rng):
         w = rng.uniform(5.0, 60.0, n)
@@ -272,29 +287,32 @@ def draw_modal(ch, rng, nmax=6):
         bd = 2 * 0.02 * w
         md = rng.uniform(0.5, 2.0, n) if mkind else np.ones(n)
 
-        def block_full(diag, lo, hi, amt):
-            A = np.diag(diag).astype(float)
-            sz = hi - lo
+        def block_full(diag, idx, amt, A=None):
+            """Couple the DOF listed in `idx` with each other (symmetric, off-diagonal)."""
+            if A is None:
+                A = np.diag(diag).astype(float)
+            sz = len(idx)
             if sz > 1:
                 q = rng.standard_normal((sz, sz)) * amt
-                s_ = np.sqrt(np.abs(np.outer(diag[lo:hi], diag[lo:hi])))
-                A[lo:hi, lo:hi] += (q + q.T) / 2 * s_
+                q = (q + q.T) / 2
+                np.fill_diagonal(q, 0.0)
+                s_ = np.sqrt(np.abs(np.outer(diag[idx], diag[idx])))
+                A[np.ix_(idx, idx)] += q * s_
             return A
 
-        e0, e1 = nrb, nrb + nel
         k = kd
         if full_k:
-            k = block_full(kd, e0, e1, 0.1)
+            k = block_full(kd, el_idx, 0.1)
             if nrf > 1:
-                k[e1:, e1:] = block_full(kd, e1, n, 0.1)[e1:, e1:]
+                k = block_full(kd, rf_idx, 0.1, k)
         b = bd
         if full_b:
-            b = block_full(bd, e0, e1, 0.2)
+            b = block_full(bd, el_idx, 0.2)
         m = None
         if mkind == 1:
             m = md
         elif mkind == 2:
-            m = block_full(md, e0, e1, 0.1)
+            m = block_full(md, el_idx, 0.1)
         mod = SimpleNamespace(n=n, nrb=nrb, nel=nel, nrf=nrf, rfmodes=rfmodes, m=m, b=b, k=k, desc=desc)
         mod.revalue = values
         return mod
@@ -880,6 +898,13 @@ def scenario_campaign(ch, tr, st):
             ev.rf_disp_only = ch.flip(1, 3, "rf_disp_only")
             ev.clock_jumps = ch.flip(1, 2, "clock_jumps")
             ev.fs_kind = ch.weighted([3, 1], "fs_kind")
+            if mod.rfmodes is not None and mod.desc["rf_at"] and mod.desc["rf_at"][0] < mod.nrb + mod.nel:
+                # SolveUnc.fsolve raises IndexError in _solve_freq_rb when residual-flexibility
+                # modes are numbered before elastic modes and there are rigid-body modes (the
+                # rb partition is then an index array: `v[rb, pvnz] = ...`).  A limitation of the
+                # frequency-domain solver (C02's territory, observation O6 in DESIGN.md), not of
+                # the bookkeeping: such events use FreqDirect.
+                ev.fs_kind = 1
             rfidx_ = None if mod.rfmodes is None else (np.flatnonzero(mod.rfmodes) if mod.rfmodes.dtype == bool else mod.rfmodes)
 
             def mkfs(mats, _k=ev.fs_kind, _rf=rfidx_):
